@@ -1,6 +1,6 @@
-(* NOT in the build (extension .pending): rename to FileDataCrc.v once Base/Crc16Facts.v
-   (crc16_range, crc_residue) is on main.  It discharges the premise `crc_ok c` of the
-   `_partial` theorems of Props/C07.v for every configuration, CRC flag included. *)
+(* Discharges the premise `crc_ok c` of the file-data theorems of Proofs/FileDataProofs.v with the two
+   CRC-16 facts proved in Base/Crc16Facts.v (crc16_range, crc_residue): the statements hold for every
+   configuration, CRC flag included. *)
 From Coq Require Import ZArith List Bool.
 From SP Require Import Base.Result Base.Bytes Base.Crc16 Base.Crc16Facts
   Model.PduHeader Spec.PduHeaderSpec Model.FileData Spec.FileDataSpec Proofs.FileDataProofs.
@@ -24,3 +24,21 @@ Theorem fd_roundtrip_full c q rest : fd_valid c q -> wf_bytes rest ->
     fp_data (fd_params p') = fp_data q /\
     fd_eqb p' p = true /\ fd_pack p' = Ok b /\ fd_packet_len p' = len b.
 Proof. apply fd_roundtrip, crc_ok_all. Qed.
+
+Theorem max_seg_len_exact_full c q mx r : fd_valid c q ->
+  get_max_file_seg_len c mx (fp_meta q) = Ok r -> len (fp_data q) = r ->
+  r + fd_overhead c (fp_meta q) = mx /\
+  exists b, fd_pack (fd_pdu_of c q) = Ok b /\ len b = mx.
+Proof. apply max_seg_len_exact, crc_ok_all. Qed.
+
+Theorem fd_len_inv_full c q ops p0 c' p : flag (cf_large c) ->
+  fd_new c q = Ok (p0, c') -> fd_apply_ops p0 ops = Ok p -> fd_valid c (fd_params p) ->
+  fd_pack p = Ok (fd_layout c (fd_params p)) /\
+  fd_packet_len p = len (fd_layout c (fd_params p)) /\
+  fd_new c (fd_params p) = Ok (p, c) /\
+  h_dlen (fd_hdr p) = len (fd_layout c (fd_params p)) - hdr_header_len (fd_hdr p).
+Proof. apply fd_len_inv, crc_ok_all. Qed.
+
+Theorem fd_suffix_irrelevant_full c q s : fd_valid c q -> wf_bytes s ->
+  fd_unpack (fd_layout c q ++ s) = fd_unpack (fd_layout c q).
+Proof. apply fd_suffix_irrelevant, crc_ok_all. Qed.
